@@ -317,6 +317,44 @@ def check_huge(case: t.Any, ctx: Ctx) -> None:
 _HUGE_CACHE: t.Dict[str, t.Any] = {}
 
 
+# ---- field names that are not text ---------------------------------------------------------------------------------------------
+#
+# Struct types keyed by ints (and mappings generally) are converted like any other; a missing, unexpected or duplicated name that is
+# not a str must be named in the text like one that is.
+
+def oddname_cases(shard: int, nshards: int) -> t.Iterator[t.Any]:
+    for (i, c) in enumerate(['missing-int-name', 'missing-bytes-name', 'extra-int-name', 'child-int-name', 'duplicate-with-int-alias', 'missing-with-int-alias']):
+        if i % nshards == shard:
+            yield [c]
+
+
+def check_oddnames(case: t.Any, ctx: Ctx) -> None:
+    import pane
+    (name,) = case
+    ctx.label(name)
+    ctx.nontrivial(True)
+    if 'D' not in _HUGE_CACHE:
+        _HUGE_CACHE['D'] = type('IntAlias', (pane.PaneBase,), {'__annotations__': {'first': int, 'second': int}, 'first': pane.field(aliases=[1]), 'second': pane.field(aliases=[2])})
+    D = _HUGE_CACHE['D']
+    (T, v, want) = {
+        'missing-int-name': ({'name': str, 1: int, 2: int}, {'name': 'x', 1: 10}, '2'),
+        'missing-bytes-name': ({'name': str, b'k': int}, {'name': 'x'}, 'k'),
+        'extra-int-name': ({'name': str}, {'name': 'x', 7: 1}, '7'),
+        'child-int-name': ({'name': str, 1: int}, {'name': 'x', 1: 'bad'}, '1'),
+        'duplicate-with-int-alias': (D, {1: 5, 'first': 6, 'second': 1}, 'first'),
+        'missing-with-int-alias': (D, {1: 5}, 'second'),
+    }[name]
+    ctx.evaluated()
+    (k, e) = outcome(lambda: pane.from_data(v, T))
+    if k != 'ce':
+        return      # (whether such a type / value is taken is not this check's subject)
+    (k2, text) = outcome(lambda: str(e))
+    if k2 != 'ok':
+        ctx.fail('render-total', f"odd-name:{type(text).__name__}", f"{name}: from_data({v!r}, {T!r}) raised ConvertError, and str() of it raised {type(text).__name__}: {str(text)[:150]}")
+    elif want not in text:
+        ctx.fail('render-complete', 'odd-name', f"{name}: the text does not name {want!r}: {text[:300]!r}")
+
+
 def suites(tier: str) -> t.List[Suite]:
     big = tier == 'thorough'
     leaves = 8 if big else 4
@@ -325,6 +363,7 @@ def suites(tier: str) -> t.List[Suite]:
               budget_s=480 if big else 40, render=gen.render_case),
         Suite('huge-ints', check_huge, cases=huge_cases, exhaustive=True, budget_s=120,
               render=lambda c: {'type': c[0], 'where': c[1], 'value': f"{'-' if c[3] < 0 else ''}10**{c[2]}"}),
+        Suite('odd-names', check_oddnames, cases=oddname_cases, exhaustive=True, budget_s=30, render=lambda c: {'case': c[0]}),
         Suite('across-hash-seeds', check_batch, strategy=lambda: batch_cases(gen.all_type_specs(leaves)), examples=40 if big else 4,
               budget_s=300 if big else 30, render=lambda b: {'batch_of': len(b), 'first': gen.render_case(b[0])}),
     ]
